@@ -1,30 +1,18 @@
 #![no_main]
-//! Structure-aware fuzzing: the fuzzer's bytes drive the proptest strategy of
-//! C09 (abstract database + corruption plan) through the pass-through RNG, the
-//! independent encoder writes the file, the battery judges it.
+//! Structure-aware fuzzing: the first 8 bytes of the input select a valid
+//! abstract database (they seed C09's proptest strategy), every further
+//! 8-byte record is one format-level corruption operator; the independent
+//! encoder writes the file, the battery judges it.
 use libfuzzer_sys::fuzz_target;
-use proptest::strategy::{Strategy, ValueTree};
-use proptest::test_runner::{Config, RngAlgorithm, TestRng, TestRunner};
 
 fuzz_target!(|data: &[u8]| {
-    if data.len() < 8 {
-        return;
-    }
-    let rng = TestRng::from_seed(RngAlgorithm::PassThrough, data);
-    let mut runner = TestRunner::new_with_rng(Config { failure_persistence: None, ..Config::default() }, rng);
-    let case = match verifcore::props::c09::case_strategy().new_tree(&mut runner) {
-        Ok(t) => t.current(),
-        Err(_) => return,
+    let case = match verifcore::props::c09::case_from_fuzz_bytes(data) {
+        Some(c) => c,
+        None => return,
     };
     let bytes = match verifcore::props::c09::build(&case) {
         Ok(b) => b,
         Err(_) => return,
     };
-    if let Err(f) = verifcore::battery::run_battery(&bytes, false) {
-        panic!("{}: {} -- case {}", f.sig, f.detail, serde_json_string(&case));
-    }
+    verifcore::battery::fuzz_judge(&bytes);
 });
-
-fn serde_json_string(case: &verifcore::props::c09::Case) -> String {
-    format!("{:?}", case).chars().take(2000).collect()
-}
